@@ -45,6 +45,8 @@ static struct {
 	char buf[4096U];
 	size_t bi;
 	int fd;
+	/* descriptors (mod 64) on which a write failed or came up short */
+	unsigned long long int errs;
 } fd_aux;
 
 static ssize_t
@@ -56,8 +58,26 @@ fdflush(void)
 	     twr < tot &&
 		     (nwr = write(fd_aux.fd, fd_aux.buf + twr, tot - twr)) > 0;
 	     twr += nwr);
+	if (UNLIKELY((size_t)twr < fd_aux.bi)) {
+		/* data is lost, keep a note for fderror() */
+		fd_aux.errs |= 1ULL << ((unsigned int)fd_aux.fd % 64U);
+	}
 	fd_aux.bi = 0U;
 	return twr;
+}
+
+static inline __attribute__((unused)) int
+fderror(int fd)
+{
+/* has output destined for FD been lost since the last fdclearerr()? */
+	return (int)(fd_aux.errs >> ((unsigned int)fd % 64U) & 0b1U);
+}
+
+static inline __attribute__((unused)) void
+fdclearerr(int fd)
+{
+	fd_aux.errs &= ~(1ULL << ((unsigned int)fd % 64U));
+	return;
 }
 
 static int
